@@ -42,6 +42,15 @@ end AList
 inductive SF | none | bonded | undelegating
   deriving DecidableEq, Repr
 
+/-- what a lock holds, as far as a guard looks at it: gamm shares of a balancer pool
+(`gamm/pool/<n>`), shares of a full-range concentrated position (`cl/pool/<n>`), `uosmo`, anything else -/
+inductive DKind | other | osmo | gamm (pool : Nat) | cl (pool : Nat)
+  deriving DecidableEq, Repr
+
+def DKind.isGamm : DKind → Bool
+  | .gamm _ => true
+  | _ => false
+
 structure Lock where
   owner : String
   recv : String            -- reward receiver; "" = the owner (DefaultOwnerReceiverPlaceholder)
@@ -50,12 +59,14 @@ structure Lock where
   amt : Int                -- the single locked coin
   sfAsset : Bool           -- the locked denom is a registered superfluid asset
   sf : SF
+  dk : DKind := .other     -- kind of the locked denom
   deriving DecidableEq, Repr
 
 structure Position where
   owner : String           -- position.Address
   pool : Nat
   locked : Bool            -- has an active (not matured) underlying lock
+  lockId : Nat := 0        -- id of that lock (0 = none / not announced)
   deriving DecidableEq, Repr
 
 /-- requested liquidity of a withdrawal relative to the position's liquidity (the math is not modelled) -/
@@ -87,6 +98,13 @@ structure State where
   -- concentrated liquidity
   positions : List (Nat × Position)
   nextPos : Nat
+  -- valset-pref / staking: addresses for which `GetDelegationPreferences` succeeds (a validator-set
+  -- preference or at least one staking delegation)
+  delegators : List String := []
+  -- gamm: stableswap pool ↦ its ScalingFactorController ("" = none was named at creation)
+  controllers : List (Nat × String) := []
+  -- superfluid: balancer pools on the unpool allow-list (`GetUnpoolAllowedPools`)
+  unpoolAllowed : List Nat := []
   deriving Repr
 
 inductive Msg
@@ -110,6 +128,13 @@ inductive Msg
   | sfUndelegate (sender : String) (id : Nat)
   | sfUnbond (sender : String) (id : Nat)
   | sfUndelegateUnbond (sender : String) (id : Nat) (amt : Int)
+  | lkBeginAll (sender : String)
+  | sfConvert (sender : String) (id : Nat) (val : String)
+  | sfMigrate (sender : String) (id : Nat)
+  | sfAddToCL (sender : String) (id : Nat) (a0 a1 : Int) (newAmt : Int)
+  | vpDelegateBonded (sender : String) (id : Nat)
+  | gmScaling (sender : String) (pool : Nat) (factorsOk : Bool)
+  | sfUnpoolNoLock (sender : String) (pool : Nat)
   deriving Repr
 
 /-! ## bank -/
@@ -406,6 +431,114 @@ def sfUndelegateUnbond (s : State) (sender : String) (id : Nat) (amt : Int) : Op
                                (aset id { l with amt := l.amt - amt } s.locks),
                     lastLock := s.lastLock + 1 }
 
+/-! ## messages added for the full inventory (guards + record effect; pool / staking math is an input or
+not modelled — see the rule text of C20 in tools/props.py) -/
+
+/-- lockup `MsgBeginUnlockingAll`: `BeginUnlockAllNotUnlockings(owner)` walks the NOT-unlocking locks of
+the sender (`AccountLockIterator(ctx, false, account)`) and calls `BeginUnlock(lock.ID, nil)` on each; one
+lock with a synthetic lockup fails the whole message.  No lock id can be named: the message reaches the
+sender's own locks only (`lkBeginAll_foreign_untouched`). -/
+def beginAllOne (sender : String) (l : Lock) : Lock :=
+  if l.owner = sender ∧ l.unlocking = false then { l with unlocking := true } else l
+
+def lkBeginAll (s : State) (sender : String) : Option State :=
+  if sender ∉ s.valid then none else
+  if s.locks.any (fun p => decide (p.2.owner = sender) && !p.2.unlocking && decide (p.2.sf ≠ SF.none)) then none else
+  some { s with locks := s.locks.map fun p => (p.1, beginAllOne sender p.2) }
+
+/-- staking delegation with an explicit validator, or (empty `valAddr`) through the sender's validator-set
+preference / existing delegations; the fall-back to the lock's original superfluid validator is dead
+(`undelegateCommon` has deleted the intermediary-account connection before it is looked up). -/
+def canStake (s : State) (sender val : String) : Bool :=
+  if val = "" then decide (sender ∈ s.delegators) else decide (val ∈ s.validators)
+
+/-- superfluid `MsgUnbondConvertAndStake` for a lock id > 0 (`UnbondConvertAndStake`, `convertLockToStake`):
+exit the balancer pool with the lock's shares, swap to the bond denom, stake.  The exit / swap amounts
+are not modelled; with `MinAmtToStake = 0` (what the engine sends) they cannot fail the message. -/
+def sfConvert (s : State) (sender : String) (id : Nat) (val : String) : Option State :=
+  if sender ∉ s.valid then none else
+  match aget id s.locks with
+  | none => none
+  | some l =>
+    if l.sf = SF.bonded ∧ l.owner ≠ sender then none else   -- undelegateCommon → validateLockForSF: lock.Owner != sender
+    if l.owner ≠ sender then none else                      -- convertLockToStake: lock.Owner != sender.String()
+    if !l.dk.isGamm then none else                          -- SharesToMigrateDenomPrefixError
+    if !canStake s sender val then none else
+    some { s with locks := aerase id s.locks,
+                  delegators := if sender ∈ s.delegators then s.delegators else sender :: s.delegators }
+
+/-- superfluid `MsgUnlockAndMigrateSharesToFullRangeConcentratedPosition`: the handler is a bare
+`return nil, errors.New("… no longer supported")` — nobody, the owner included, gets through. -/
+def sfMigrate (_s : State) (_sender : String) (_id : Nat) : Option State := none
+
+/-- superfluid `MsgAddToConcentratedLiquiditySuperfluidPosition`, from the lookup of the underlying lock on.
+`newAmt` (the liquidity of the re-created position = the amount of its new lock) is an input: the CL
+math is not modelled. -/
+def sfAddToCLLock (s : State) (sender : String) (id : Nat) (p : Position) (l : Lock) (newAmt : Int) : Option State :=
+  if l.owner ≠ p.owner then none else                   -- lock.Owner != position.Address
+  if l.owner ≠ sender then none else                    -- lock.Owner != sender.String()
+  if l.dur ≠ s.unbonding ∨ l.unlocking then none else   -- LockImproperStateError
+  if l.sf ≠ SF.bonded then none else                    -- undelegateCommon: ErrNotSuperfluidUsedLockup
+  if !poolHasPosition (aerase id s.positions) p.pool then none else   -- AddToLastPositionInPoolError
+  if newAmt ≤ 0 then none else
+  some { s with positions := aset s.nextPos { owner := sender, pool := p.pool, locked := true, lockId := s.lastLock + 1 }
+                               (aerase id s.positions),
+                nextPos := s.nextPos + 1,
+                locks := aset (s.lastLock + 1) { l with owner := sender, recv := "", amt := newAmt, unlocking := false, sf := SF.bonded }
+                           (aerase p.lockId s.locks),
+                lastLock := s.lastLock + 1 }
+
+def sfAddToCL (s : State) (sender : String) (id : Nat) (a0 a1 : Int) (newAmt : Int) : Option State :=
+  if sender ∉ s.valid then none else
+  match aget id s.positions with
+  | none => none
+  | some p =>
+    if a0 < 0 ∨ a1 < 0 then none else
+    if !p.locked ∨ p.lockId = 0 then none else            -- PositionNotSuperfluidStakedError
+    match aget p.lockId s.locks with
+    | none => none
+    | some l => sfAddToCLLock s sender id p l newAmt
+
+/-- `time.Hour*24*7*2` in seconds (the guard expression is pinned in `guards_pinned`). -/
+def twoWeeks : Int := 1209600
+
+/-- valset-pref `MsgDelegateBondedTokens` (`ForceUnlockBondedOsmo`, `validateLockForForceUnlock`): break a
+bonded uosmo lock of at most two weeks and stake it along the sender's validator-set preference. -/
+def vpDelegateBonded (s : State) (sender : String) (id : Nat) : Option State :=
+  if sender ∉ s.delegators then none else                   -- NoValidatorSetOrExistingDelegationsError
+  match aget id s.locks with
+  | none => none
+  | some l =>
+    if l.owner ≠ sender then none else                      -- lock.GetOwner() != delegatorAddr
+    if l.dk ≠ DKind.osmo ∨ l.amt ≤ 0 then none else
+    if l.unlocking ∨ l.dur > twoWeeks then none else
+    if l.sf ≠ SF.none then none else
+    some { s with locks := aerase id s.locks }
+
+/-- gamm `MsgStableSwapAdjustScalingFactors` (`setStableSwapScalingFactors`, `Pool.SetScalingFactors`): only the
+pool's scaling-factor controller; the comparison is a plain string comparison, so a pool created without a
+controller ("") has none forever.  The factors themselves are not modelled (`factorsOk`: they pass validation). -/
+def gmScaling (s : State) (sender : String) (pool : Nat) (factorsOk : Bool) : Option State :=
+  match aget pool s.controllers with
+  | none => none                                            -- no such pool / not a stableswap pool
+  | some c =>
+    if sender ≠ c then none else                            -- sender != p.ScalingFactorController
+    if !factorsOk then none else
+    some s
+
+/-- does `a` own a lock (unlocking or not) of the pool's share denom? -/
+def ownsGammLock (s : State) (a : String) (pool : Nat) : Bool :=
+  s.locks.any fun p => decide (p.2.owner = a) && decide (p.2.dk = DKind.gamm pool)
+
+/-- superfluid `MsgUnPoolWhitelistedPool` names no lock: it walks
+`GetAccountLockedLongerDurationDenom(sender, gamm/pool/<id>, 1ms)`.  Modelled for senders WITHOUT such a
+lock only (the driver refuses the op otherwise: unpooling the sender's own locks needs the pool math): the
+message then succeeds and does nothing. -/
+def sfUnpoolNoLock (s : State) (sender : String) (pool : Nat) : Option State :=
+  if sender ∉ s.valid then none else
+  if pool ∉ s.unpoolAllowed then none else                 -- ErrPoolNotWhitelisted
+  some s
+
 /-! ## dispatcher -/
 
 def apply (s : State) : Msg → Option State
@@ -429,6 +562,13 @@ def apply (s : State) : Msg → Option State
   | .sfUndelegate a i => sfUndelegate s a i
   | .sfUnbond a i => sfUnbond s a i
   | .sfUndelegateUnbond a i x => sfUndelegateUnbond s a i x
+  | .lkBeginAll a => lkBeginAll s a
+  | .sfConvert a i v => sfConvert s a i v
+  | .sfMigrate a i => sfMigrate s a i
+  | .sfAddToCL a i x y n => sfAddToCL s a i x y n
+  | .vpDelegateBonded a i => vpDelegateBonded s a i
+  | .gmScaling a p k => gmScaling s a p k
+  | .sfUnpoolNoLock a p => sfUnpoolNoLock s a p
 
 /-- one message; the INPUT state is returned on any rejection. -/
 def step (s : State) (m : Msg) : State × Result :=
@@ -440,7 +580,9 @@ def Msg.sender : Msg → String
   | .tfCreate a _ | .tfMint a _ _ _ | .tfBurn a _ _ _ | .tfForce a _ _ _ _ | .tfChangeAdmin a _ _
   | .tfSetMeta a _ _ _ | .tfSetHook a _ _ | .lkBegin a _ _ | .lkExtend a _ _ | .lkSetRecv a _ _
   | .lkForce a _ _ | .clWithdraw a _ _ | .clAdd a _ _ _ | .clFees a _ | .clIncentives a _
-  | .clTransfer a _ _ | .sfDelegate a _ _ | .sfUndelegate a _ | .sfUnbond a _ | .sfUndelegateUnbond a _ _ => a
+  | .clTransfer a _ _ | .sfDelegate a _ _ | .sfUndelegate a _ | .sfUnbond a _ | .sfUndelegateUnbond a _ _
+  | .lkBeginAll a | .sfConvert a _ _ | .sfMigrate a _ | .sfAddToCL a _ _ _ _ | .vpDelegateBonded a _
+  | .gmScaling a _ _ | .sfUnpoolNoLock a _ => a
 
 def ownerOfLock (s : State) (id : Nat) : Option String := (aget id s.locks).map (·.owner)
 def ownerOfPosition (s : State) (id : Nat) : Option String := (aget id s.positions).map (·.owner)
